@@ -30,12 +30,40 @@ func registerGlobal(w *World) *ssa.Global {
 	g := findRegisterGlobal(w)
 	regGlobalMemo[w] = g
 	if g != nil {
+		if _, wrapped := regFieldMemo[g]; wrapped {
+			regPtrAliasMemo[g] = ptrAliases(w, g)
+		}
 		regAliasMemo[g] = mapAliases(w, g)
 	}
 	return g
 }
 
 var regGlobalMemo = map[*World]*ssa.Global{}
+
+// regFieldMemo: when the register is a map held in a field of a package-level
+// struct (the map wrapped in a small type with methods), the field's index.
+var regFieldMemo = map[*ssa.Global]int{}
+
+// regPtrAliasMemo: parameters (receivers) of pointer-to-struct type that every
+// call site binds to the address of the register variable.
+var regPtrAliasMemo = map[*ssa.Global]map[ssa.Value]bool{}
+
+// regMemName: the engine's name of the register map's memory: the variable,
+// or variable.field for a wrapped map.
+func regMemName(g *ssa.Global) string {
+	if i, ok := regFieldMemo[g]; ok {
+		if st, ok := g.Type().(*types.Pointer).Elem().Underlying().(*types.Struct); ok && i < st.NumFields() {
+			return globalName(g) + "." + st.Field(i).Name()
+		}
+	}
+	return globalName(g)
+}
+
+// regStructBase: v is the register variable's address (the global itself or a
+// parameter always bound to it).
+func regStructBase(v ssa.Value, g *ssa.Global) bool {
+	return v == ssa.Value(g) || regPtrAliasMemo[g][v]
+}
 
 // regAliasMemo: per register global, the parameters that always stand for
 // it (see mapAliases)
@@ -55,12 +83,18 @@ func mapAliases(w *World, g *ssa.Global) map[ssa.Value]bool {
 			}
 			break
 		}
-		if u, ok := v.(*ssa.UnOp); ok && u.Op == token.MUL && u.X == ssa.Value(g) {
+		if out[v] {
 			return true
 		}
-		return out[v]
+		saved := regAliasMemo[g]
+		regAliasMemo[g] = out
+		defer func() { regAliasMemo[g] = saved }()
+		return loadsGlobal(v, g)
 	}
 	gt := g.Type().(*types.Pointer).Elem().Underlying()
+	if fi, wrapped := regFieldMemo[g]; wrapped {
+		gt = gt.(*types.Struct).Field(fi).Type().Underlying()
+	}
 	// call sites per static callee; functions used as values are excluded
 	sites := map[*ssa.Function][]*ssa.CallCommon{}
 	escaped := map[*ssa.Function]bool{}
@@ -95,6 +129,111 @@ func mapAliases(w *World, g *ssa.Global) map[ssa.Value]bool {
 				all := true
 				for _, cc := range sites[fn] {
 					if i >= len(cc.Args) || !isG(cc.Args[i]) {
+						all = false
+					}
+				}
+				if all {
+					out[p] = true
+					changed = true
+				}
+			}
+		}
+	}
+	return out
+}
+
+// regAddressUseAllowed: the register variable's address is used by `in` only
+// as the receiver/argument of an in-repo function whose parameter is bound to
+// the variable at every call site and which uses it only to reach the map
+// field (or to hand it on in the same way).
+func regAddressUseAllowed(reg *ssa.Global, in ssa.Instruction) bool {
+	if _, wrapped := regFieldMemo[reg]; !wrapped {
+		return false
+	}
+	if fa, ok := in.(*ssa.FieldAddr); ok && fa.X == ssa.Value(reg) {
+		return true
+	}
+	ci, ok := in.(ssa.CallInstruction)
+	if !ok {
+		return false
+	}
+	callee := ci.Common().StaticCallee()
+	if callee == nil {
+		return false
+	}
+	for i, a := range ci.Common().Args {
+		if a != ssa.Value(reg) {
+			continue
+		}
+		if i >= len(callee.Params) || !regPtrAliasMemo[reg][callee.Params[i]] {
+			return false
+		}
+		for _, ref := range *callee.Params[i].Referrers() {
+			switch x := ref.(type) {
+			case *ssa.FieldAddr, *ssa.DebugRef:
+			case ssa.CallInstruction:
+				if !regAddressUseAllowedParam(reg, callee.Params[i], x) {
+					return false
+				}
+			default:
+				return false
+			}
+		}
+	}
+	return true
+}
+
+func regAddressUseAllowedParam(reg *ssa.Global, p ssa.Value, ci ssa.CallInstruction) bool {
+	callee := ci.Common().StaticCallee()
+	if callee == nil {
+		return false
+	}
+	for i, a := range ci.Common().Args {
+		if a == p && (i >= len(callee.Params) || !regPtrAliasMemo[reg][callee.Params[i]]) {
+			return false
+		}
+	}
+	return true
+}
+
+// ptrAliases: parameters of type pointer-to-the-register's-struct that every
+// call site binds to the register variable's address (methods of the wrapping
+// type called only on the variable).
+func ptrAliases(w *World, g *ssa.Global) map[ssa.Value]bool {
+	out := map[ssa.Value]bool{}
+	sites := map[*ssa.Function][]*ssa.CallCommon{}
+	escaped := map[*ssa.Function]bool{}
+	for _, fn := range w.Funcs {
+		for _, b := range fn.Blocks {
+			for _, in := range b.Instrs {
+				var cc *ssa.CallCommon
+				if ci, ok := in.(ssa.CallInstruction); ok {
+					cc = ci.Common()
+					if c := cc.StaticCallee(); c != nil {
+						sites[c] = append(sites[c], cc)
+					}
+				}
+				for _, op := range in.Operands(nil) {
+					if f, ok := (*op).(*ssa.Function); ok && (cc == nil || *op != cc.Value) {
+						escaped[f] = true
+					}
+				}
+			}
+		}
+	}
+	for changed := true; changed; {
+		changed = false
+		for _, fn := range w.Funcs {
+			if fn.Blocks == nil || escaped[fn] || len(sites[fn]) == 0 || isExportedAPI(fn) {
+				continue
+			}
+			for i, p := range fn.Params {
+				if out[p] || !types.Identical(p.Type(), g.Type()) {
+					continue
+				}
+				all := true
+				for _, cc := range sites[fn] {
+					if i >= len(cc.Args) || !(cc.Args[i] == ssa.Value(g) || out[cc.Args[i]]) {
 						all = false
 					}
 				}
@@ -157,6 +296,27 @@ func findRegisterGlobal(w *World) *ssa.Global {
 							if g, ok := ld.X.(*ssa.Global); ok {
 								if _, isMap := g.Type().(*types.Pointer).Elem().Underlying().(*types.Map); isMap {
 									return g
+								}
+							}
+							// the map is a field of a package-level struct (a registry
+							// type with methods): variable.field, possibly through a
+							// receiver bound to the variable's address
+							if fa, ok := ld.X.(*ssa.FieldAddr); ok {
+								base := fa.X
+								for i := 0; i < 4; i++ {
+									if a, ok := bound[base]; ok {
+										base = a
+									} else {
+										break
+									}
+								}
+								if g, ok := base.(*ssa.Global); ok {
+									if st, ok := g.Type().(*types.Pointer).Elem().Underlying().(*types.Struct); ok {
+										if _, isMap := st.Field(fa.Field).Type().Underlying().(*types.Map); isMap {
+											regFieldMemo[g] = fa.Field
+											return g
+										}
+									}
 								}
 							}
 						}
@@ -332,7 +492,7 @@ func c07CBORDispatch(w *World, r *Recorder) {
 		return
 	}
 	buf := fn.Params[0].Name()
-	regName := globalName(reg)
+	regName := regMemName(reg)
 	n := 0
 	for _, p := range s.Paths {
 		if p.Ret == nil {
@@ -478,7 +638,7 @@ func initRegistrations(w *World, r *Recorder, rule string) []regEntry {
 				continue
 			}
 			for _, ev := range p.St.events {
-				key, isUp := regUpdateKey(ev, globalName(reg))
+				key, isUp := regUpdateKey(ev, regMemName(reg))
 				if !isUp {
 					continue
 				}
@@ -635,7 +795,7 @@ func c07Profiles(w *World, r *Recorder) {
 					continue
 				}
 				for _, ev := range p.St.events {
-					if key, isUp := regUpdateKey(ev, globalName(reg)); isUp {
+					if key, isUp := regUpdateKey(ev, regMemName(reg)); isUp {
 						if key == "psatoken.IProfile.GetName("+prm+")" || strings.HasPrefix(key, "psatoken.IProfile.GetName#") {
 							ok = true
 						} else {
@@ -662,7 +822,7 @@ func c07Profiles(w *World, r *Recorder) {
 					continue
 				}
 				_, nl := errOf(p, 1)
-				atom := "ok:lookup(g:" + globalName(reg) + "," + prm + ")"
+				atom := "ok:lookup(g:" + regMemName(reg) + "," + prm + ")"
 				found, has := false, false
 				for a, b := range p.St.atoms {
 					if strings.HasPrefix(a, atom) {
@@ -684,7 +844,7 @@ func c07Profiles(w *World, r *Recorder) {
 							gc = &p.St.events[i]
 						}
 					}
-					if !has || !found || gc == nil || gc.Recv == nil || !strings.HasPrefix(gc.Recv.name(), "lookup(g:"+globalName(reg)+","+prm+")") || p.Rets[0].name() != gc.Result.name() {
+					if !has || !found || gc == nil || gc.Recv == nil || !strings.HasPrefix(gc.Recv.name(), "lookup(g:"+regMemName(reg)+","+prm+")") || p.Rets[0].name() != gc.Result.name() {
 						okAll, why = false, "success is not 'GetClaims() of the entry registered under the argument'"
 					}
 				}
@@ -1022,6 +1182,21 @@ func loadsGlobal(v ssa.Value, g *ssa.Global) bool {
 	if regAliasMemo[g][v] {
 		return true // a parameter bound to the register at every call site
 	}
+	if fi, wrapped := regFieldMemo[g]; wrapped {
+		// the map field of the wrapping struct, read through the variable or
+		// through a receiver bound to it
+		switch x := v.(type) {
+		case *ssa.UnOp:
+			if fa, ok := x.X.(*ssa.FieldAddr); ok && x.Op == token.MUL && fa.Field == fi && regStructBase(fa.X, g) {
+				return true
+			}
+		case *ssa.Field:
+			if ld, ok := x.X.(*ssa.UnOp); ok && x.Field == fi && ld.Op == token.MUL && regStructBase(ld.X, g) {
+				return true
+			}
+		}
+		return false
+	}
 	u, ok := v.(*ssa.UnOp)
 	return ok && u.Op == token.MUL && u.X == ssa.Value(g)
 }
@@ -1207,7 +1382,32 @@ func checkC16(w *World, r *Recorder) propInfo {
 		}
 	}
 	gi := w.GlobalInfo(reg)
-	r.Check(gi != nil && len(gi.AddrEscapes) == 0, "C16-N1", "register-address", w.Pos(reg.Pos()), "the register's address does not escape", "the register's address is taken (it could be written elsewhere)")
+	okAddr := gi != nil
+	if gi != nil {
+		for _, in := range gi.AddrEscapes {
+			if !regAddressUseAllowed(reg, in) {
+				okAddr = false
+			}
+		}
+	}
+	// a wrapped register: the map field is never reassigned outside the initialiser
+	if fi, wrapped := regFieldMemo[reg]; wrapped {
+		for _, fn := range w.Funcs {
+			if fn.Synthetic == "package initializer" {
+				continue
+			}
+			for _, b := range fn.Blocks {
+				for _, in := range b.Instrs {
+					if st, ok := in.(*ssa.Store); ok {
+						if fa, ok := st.Addr.(*ssa.FieldAddr); ok && fa.Field == fi && regStructBase(fa.X, reg) {
+							r.Refute("C16-N1", "register-assigned@"+fnKey(fn), w.InstrPos(st), "the register's map is replaced outside its initialiser")
+						}
+					}
+				}
+			}
+		}
+	}
+	r.Check(okAddr, "C16-N1", "register-address", w.Pos(reg.Pos()), "the register's address does not escape", "the register's address is taken (it could be written elsewhere)")
 	if len(writers) == 0 {
 		r.Refute("C16-N1", "register-update", w.Pos(reg.Pos()), "nothing writes the register")
 	}
@@ -1218,7 +1418,7 @@ func checkC16(w *World, r *Recorder) propInfo {
 			r.Undecide("C16-N2", fnKey(fn), w.FnPos(fn), why)
 			continue
 		}
-		regName := globalName(reg)
+		regName := regMemName(reg)
 		for _, p := range s.Paths {
 			if p.Ret == nil {
 				continue
